@@ -496,3 +496,8 @@ M('c15-split-inside', 'C15', [(PA, "    if not state and s[idx:(idx + l)] == sep
 M('c15-negative-slice-escapes', 'C15', [(PA, "  if s[-1:] == 'u':\n    s = s[:-1]", "  if s[-1:] == 'u':\n    s = s[:-1]\n  tail = s[-2:]\n  if tail == '.0':\n    return {'number': tail}")], 'C15-R2')
 T('c15-twin-startswith', 'C15', [(PA, "  if s.startswith('combine '):\n    s = s[len('combine '):]", "  if s[:8] == 'combine ':\n    s = s[8:]")])
 T('c15-twin-scanner-internal', 'C15', [(PA, "  return status == 'OK' and state == ''", "  return status == 'OK' and not state")])
+M('c09-unbalanced-emitter', 'C09', [(ET, "      return 'ROW(%s)::%s' % (args, record_type)", "      return 'ROW(%s::%s' % (args, record_type)")], 'C09-R3')
+M('c09-unbalanced-template', 'C09', [(DI, "        'Size': 'COALESCE(ARRAY_LENGTH({0}, 1), 0)',", "        'Size': 'COALESCE(ARRAY_LENGTH({0}, 1, 0)',")], 'C09-R3')
+M('c09-unclosed-quote', 'C09', [(DI, "      return 'JSON_EXTRACT(%s, \"$.%s\")' % (record, subscript)", "      return 'JSON_EXTRACT(%s, \"$.%s)' % (record, subscript)")], 'C09-R3')
+M('c09-cast-paren', 'C09', [(ET, "      return \"CAST([%s], 'Array(%s)')\" % (internals, element_type_name)", "      return \"CAST([%s], 'Array(%s))\" % (internals, element_type_name)")], 'C09-R3')
+T('c09-twin-fragment-refactor', 'C09', [(ET, "          result = self.Infix(sql_op, arguments)\n          result = '(' + result + ')'\n          return result", "          return '(%s)' % self.Infix(sql_op, arguments)")])
